@@ -194,6 +194,50 @@ func (g *wgen) field(levels int) {
 	g.value(t, levels)
 }
 
+// wide appends a field whose value is a list/set/map of n elements (scalars, structs or containers): breadth,
+// not depth — the nesting budget of `read` must not be spent by siblings.
+func (g *wgen) wide(n int) string {
+	t := []byte{15, 14, 13}[g.r.Intn(3)]
+	var et byte
+	kind := ""
+	switch g.r.Intn(3) {
+	case 0:
+		et, kind = wireTypes[g.r.Intn(7)], "scalar"
+	case 1:
+		et, kind = 12, "struct"
+	default:
+		et, kind = []byte{15, 14, 13}[g.r.Intn(3)], "container"
+	}
+	if n > 100 && kind != "scalar" {
+		n = 100 // the model re-encodes by list append (quadratic): 1000 elements only for scalars
+	}
+	g.b = append(g.b, t, byte(g.r.U64()), byte(g.r.U64()))
+	if t == 13 {
+		g.b = append(g.b, 8, et)
+	} else {
+		g.b = append(g.b, et)
+	}
+	g.u32(uint32(n))
+	for i := 0; i < n; i++ {
+		if t == 13 {
+			g.u32(uint32(i))
+		}
+		g.value(et, 2)
+	}
+	return fmt.Sprintf("wide.%s.%d", kind, n)
+}
+
+// grid appends a field list<list<i16>> of n × n.
+func (g *wgen) grid(n int) {
+	g.b = append(g.b, 15, byte(g.r.U64()), byte(g.r.U64()), 15)
+	g.u32(uint32(n))
+	for i := 0; i < n; i++ {
+		g.b = append(g.b, 6)
+		g.u32(uint32(n))
+		g.rnd(2 * n)
+	}
+}
+
 // chain appends a field whose value nests exactly `depth` levels (the innermost value is a scalar).
 func (g *wgen) chain(depth int) {
 	var build func(t byte, d int)
@@ -514,8 +558,18 @@ var catalogue = []uaCase{
 	{class: "cat.negative-count", stream: mustHex("0f000108ffffffff00")},
 	{class: "cat.empty", stream: mustHex("00")},
 	{class: "cat.no-stop", stream: mustHex("")},
+	{class: "cat.list-of-64-i32", stream: wideList(8, 64, 4)},
+	{class: "cat.list-of-65-empty-structs", stream: wideList(12, 65, 1)},
+	{class: "cat.list-of-1000-bytes", stream: wideList(3, 1000, 1)},
 	{class: "cat.raw-string-window", stream: mustHex("0b00010000000561"), raw: true},
 	{class: "cat.raw-stop-type", stream: mustHex("000000"), raw: true},
+}
+
+// wideList is field 1 = list<et> of n elements of `size` zero bytes each (an empty struct is one STOP byte), STOP.
+func wideList(et byte, n, size int) []byte {
+	b := []byte{15, 0, 1, et, byte(n >> 24), byte(n >> 16), byte(n >> 8), byte(n)}
+	b = append(b, make([]byte, n*size)...)
+	return append(b, 0)
 }
 
 func mustHex(s string) []byte {
@@ -537,6 +591,20 @@ func genCase(r *vl.Rng, count func(string)) uaCase {
 		}
 		g.b = append(g.b, 0)
 		return uaCase{class: fmt.Sprintf("deep.%d", d), stream: g.b}
+	}
+	if r.Chance(4) {
+		cls := ""
+		if r.Chance(15) {
+			g.grid(40)
+			cls = "wide.grid.40"
+		} else {
+			cls = g.wide([]int{63, 64, 65, 100, 1000}[r.Intn(5)])
+		}
+		if r.Chance(30) {
+			g.field(3)
+		}
+		g.b = append(g.b, 0)
+		return uaCase{class: cls, stream: g.b}
 	}
 	nf := 1 + r.Intn(4)
 	for i := 0; i < nf; i++ {
